@@ -41,6 +41,7 @@ func init() {
 		"vfTypeCheck":  vfTypeCheck,
 		"vfTypeErrors": vfTypeErrors,
 		"vfExec":       vfExec,
+		"vfDeepEqual":  vfDeepEqual,
 		"vfAssertTerminates": func(p *path, caller *frame, a []value) value {
 			return vfAssert(p, caller, []value{vfTerminates(p, caller, a[:1]), a[1]})
 		},
